@@ -247,7 +247,7 @@ def run_cases(run, cases, table=None):
     for hc, (ci, ws, origin, meta, warm, retype), res in zip(hcases, metas, results):
         c = cases[ci]
         f = c["files"][origin]
-        scope_root = 0 if ws else origin
+        scope_root = wcommon.scope_root(c, ws, origin)
         tabs = wcommon.tables_index(c["tables"][scope_root])
         key = vf.digest([hc["files"], ws, origin, warm])
         run.count(key, len(meta) > 0)
@@ -307,7 +307,7 @@ def main(args):
     run.sample({"files": wcommon.files_of(c), "totals_of_root_tree": c["tables"][0]["totals"][:6], "postings": c["tables"][0]["postings"], "txcount": c["tables"][0]["txcount"]})
     run.rule = ("one evaluation per (workspace simulated by WorkspaceFiles.tla, workspace root on/off, file the hovers are requested from); every hoverable lexeme of that file "
                 "is probed at its first, middle and last character; non-trivial = the file has at least one hoverable lexeme; distinct by (files, root, origin)")
-    run.assumptions = ["open documents equal their files on disk (half of the evaluations reach that state along a longer history: other files opened and closed first, the document changed and changed back)", "every file is a member of main.journal's include tree",
+    run.assumptions = ["open documents equal their files on disk (half of the evaluations reach that state along a longer history: other files opened and closed first, the document changed and changed back)", "two of the twelve workspace shapes have a file outside main.journal's include tree: requests made from it are judged against its own tree",
                        "hover on an account is requested on posting lines (an account directive is not a posting)",
                        "a zero total may be shown as 0 or omitted"]
     run.finish(confirm=lambda d: confirm(run, d))
@@ -319,7 +319,7 @@ def confirm(run, d):
     warm = bool(cs.get("warm"))
     hc, meta = script_case(0, c, cs["ws"], cs["origin"], warm, bool(cs.get("retype")))
     res = run.harness("script", [hc])[0]
-    tabs = wcommon.tables_index(c["tables"][0 if cs["ws"] else cs["origin"]])
+    tabs = wcommon.tables_index(c["tables"][wcommon.scope_root(c, cs["ws"], cs["origin"])])
     if "panic" in res:
         return d["sig"] == "panic"
     for (li, col, k, info), it in zip(meta, res["steps"][-1].get("sweep") or []):
